@@ -44,12 +44,28 @@ _PF = {'MOVE_NOEXCEPT': 1, 'COPYABLE': 1, 'RELOCATE_WITH_MOVE': 1, 'POCCA': 0, '
 add(_c('pair_lt', N=3, M=2, only=PAIR_ONLY, facts=dict(_PF, M_LT_N=1, M_GT_N=0)))      # source inline capacity smaller than the destination's
 add(_c('pair_gt', N=3, M=5, only=PAIR_ONLY, facts=dict(_PF, M_LT_N=0, M_GT_N=1)))      # ... larger
 
+# inline capacity 0: no inline buffer at all (zero-capacity specialisation of small_vector_data)
+N0_QUICK = ['svb_append_element__pcE', 'svb_append_copies', 'svb_shrink_to_size', 'svb_resize_with__ul_pcE', 'svb_move_assign_default__psvb', 'svb_move_assign__psvb', 'svb_swap__psvb', 'svb_ctor__psvb', 'svb_ctor__ul_pcE_pcA', 'svb_dtor', 'svb_erase_range', 'sv_inlined', 'sv_inline_capacity', 'svb_unchecked_calculate_new_capacity']
+# proved in the N = 0 class (the remaining functions hit CBMC's C semantics of null-pointer relations, see DESIGN.md 12.2)
+N0_ALL = ['ai_default_uninitialized_copy__FI_FI_pE', 'ai_default_uninitialized_copy__mpE_mpE_pE', 'ai_default_uninitialized_copy__pcE_pcE_pE', 'ai_default_uninitialized_value_construct', 'ai_destroy_range__pE_pE', 'ai_external_range_length__FI_FI', 'ai_external_range_length__pcE_pcE', 'ai_uninitialized_fill__pE_pE_pcE', 'sv_append__pcE_pcE', 'sv_assign__ul_pcE', 'sv_at__ul', 'sv_at__ul_c', 'sv_back__v', 'sv_begin__v', 'sv_capacity', 'sv_cbegin', 'sv_cend', 'sv_clear', 'sv_data__v', 'sv_emplace_back__pcE', 'sv_empty', 'sv_end__v', 'sv_erase__svcit', 'sv_front__v', 'sv_get_allocator', 'sv_inlinable', 'sv_inline_capacity', 'sv_inlined', 'sv_max_size', 'sv_op_index__ul', 'sv_pop_back', 'sv_push_back__pE', 'sv_push_back__pcE', 'sv_reserve', 'sv_resize__ul', 'sv_resize__ul_pcE', 'sv_shrink_to_fit', 'sv_size', 'svb_append_copies', 'svb_append_element__pE', 'svb_append_element__pcE', 'svb_append_range__strong_pcE_pcE', 'svb_assign_with_copies', 'svb_assign_with_range__pcE_pcE', 'svb_copy_assign__pcsvb', 'svb_copy_assign_default__pcsvb', 'svb_ctor__pcA', 'svb_ctor__pcE_pcE_pcA', 'svb_ctor__pcsvb_pcA', 'svb_ctor__psvb', 'svb_ctor__ul_pcA', 'svb_ctor__ul_pcE_pcA', 'svb_dtor', 'svb_emplace_into_current__pE_pE', 'svb_emplace_into_current__pE_pcE', 'svb_erase_all', 'svb_erase_at', 'svb_erase_last', 'svb_erase_range', 'svb_insert_copies', 'svb_move_assign__psvb', 'svb_move_assign__psvb', 'svb_move_assign_default__psvb', 'svb_move_assign_unequal_no_propagate__psvb', 'svb_move_left__pE_pE_pE', 'svb_resize_with__ul', 'svb_resize_with__ul', 'svb_resize_with__ul_pcE', 'svb_resize_with__ul_pcE', 'svb_shift_into_uninitialized', 'svb_shift_into_uninitialized', 'svb_shrink_to_size', 'svb_swap__psvb', 'svb_swap__psvb', 'svb_swap_default', 'svb_swap_unequal_no_propagate', 'svb_unchecked_calculate_new_capacity', 'svb_unchecked_calculate_new_capacity']
+# data () is the null pointer when empty: p + 0 and p - p on it are defined in C++ but are flagged by CBMC's C semantics,
+# so the object-bounds check of pointer arithmetic is dropped in this class (element accesses stay checked through w_ok/r_ok)
+add(_c('n0', N=0, only=N0_QUICK, facts=dict(_PF), drop_checks=['--pointer-overflow-check']))
+add(_c('n0_full', N=0, only=N0_ALL, facts=dict(_PF), drop_checks=['--pointer-overflow-check']))
+
+# narrow size_type (C12): 8-bit size_type / size_ty arithmetic; the caller's ranges stay 64-bit
+NARROW_ONLY = ['svb_unchecked_calculate_new_capacity', 'svb_append_element__pcE', 'svb_append_copies', 'svb_request_capacity', 'svb_resize_with__ul_pcE',
+               'svb_insert_copies', 'svb_append_range__strong_pcE_pcE', 'svb_assign_with_range__pcE_pcE', 'svb_ctor__pcE_pcE_pcA', 'svb_ctor__ul_pcE_pcA',
+               'ai_external_range_length__pcE_pcE', 'svb_assign_with_copies', 'svb_emplace_into_reallocation__pE_pcE', 'sv_max_size', 'sv_size']
+add(_c('u8', defines=['NDEBUG', 'VT_SIZE_T=std::uint8_t'], only=NARROW_ONLY, size_type='unsigned char',
+       model_defines={'SIZE_T_MAX_CFG': 'UCHAR_MAX', 'DIFF_T_MAX_CFG': 'SCHAR_MAX'}, alloc_max_bound='255ul', cap_bound='255u', facts=dict(_PF, NARROW=1)))
+
 # the configuration class excluded everywhere else: inline capacity larger than max_size () (known finding KF-C12-1)
 add(_c('kf_inline_gt_max', model_defines={'KF_INLINE_EXCEEDS_MAX_SIZE': 1}, only=['svb_append_element__pcE'], props=['C12'],
        facts={'MOVE_NOEXCEPT': 1, 'COPYABLE': 1, 'RELOCATE_WITH_MOVE': 1, 'POCCA': 0, 'POCMA': 0, 'POCS': 0, 'ALWAYS_EQUAL': 0}))
 
 def cfg_defines(cfg):
-    d = ['-DCFG_CAP_BOUND=(1u<<30)', '-DCFG_ALLOC_MAX_BOUND=(1ul<<50)']
+    d = ['-DCFG_CAP_BOUND=%s' % cfg.get('cap_bound', '(1u<<30)'), '-DCFG_ALLOC_MAX_BOUND=%s' % cfg.get('alloc_max_bound', '(1ul<<50)')]
     if str(cfg['N']) == '0':
         d.append('-DCFG_N_ZERO')
     if cfg.get('M') is not None:
@@ -63,6 +79,6 @@ def cfg_defines(cfg):
     return d
 
 TIERS = {
-    'quick': ['main', 'tmove', 'aprop', 'aeq', 'pocs', 'kf_inline_gt_max'],
-    'thorough': ['main', 'tmove', 'aprop', 'aeq', 'pocs', 'kf_inline_gt_max', 'pocca', 'pocma', 'pocca_pocma', 'pocca_pocs', 'pocma_pocs'],
+    'quick': ['main', 'tmove', 'aprop', 'aeq', 'pocs', 'pair_lt', 'n0', 'kf_inline_gt_max'],
+    'thorough': ['main', 'tmove', 'aprop', 'aeq', 'pocs', 'pair_lt', 'pair_gt', 'n0_full', 'kf_inline_gt_max', 'pocca', 'pocma', 'pocca_pocma', 'pocca_pocs', 'pocma_pocs'],
 }
